@@ -678,6 +678,19 @@ func genMsgVendor(c *Ctx) {
 		c.decFew("dec", "BundlePropertyExperimenter", nb().u16(0xffff, l).u32(8992, 1).seq(1, 8).b)
 	}
 	c.decFew("decc", "NewBundlePropertyExperimenter", nb().u16(0xffff, 24).u32(8992, 1).seq(1, 8).b)
+	for _, t := range []string{"BundlePropertyExperimenter(65535,0,8992,1,x)", "BundlePropertyExperimenter(65535,0,8992,1,x0102030405)",
+		"BundlePropertyExperimenter(65535,12,8992,1,x01020304)"} {
+		c.encDec("BundlePropertyExperimenter", t)
+	}
+	// bundle-add carrying properties with payload (only a decoder can set the payload)
+	for _, pl := range []string{"x", "x01", "x0102030405060708", "x" + strings.Repeat("ab", 40)} {
+		t := fmt.Sprintf("VendorHeader(Header(4,4,0,9),1330529792,2301,BundleAdd(7,x0000,1,Header(4,20,8,3),[BundlePropertyExperimenter(65535,0,8992,1,%s),BundlePropertyExperimenter(65535,0,1,2,x)]))", pl)
+		c.run("enc", t)
+		if b := marshalTerm(t); b != nil {
+			c.decFew("dec", "VendorHeader", b)
+			c.decLite("parse", "", b, 4)
+		}
+	}
 
 	// VendorHeader with every payload kind
 	payloads := []string{"~", "ControllerID(x000000000000,5)", "TLVTableMod(1,x000000000000," + msgTlvMaps(2) + ")",
